@@ -26,6 +26,11 @@ func walkCases(tier string, seed int64, div int) []fw.Case {
 		for i := range gen.StartFENs {
 			l = append(l, fw.Case{Idx: len(l), Kind: "tree", N: i, Seed: fw.Mix(seed, int64(i))})
 		}
+		if div == 1 {
+			for i := range ref.PerftTable {
+				l = append(l, fw.Case{Idx: len(l), Kind: "perft", N: i})
+			}
+		}
 		l = mkCases(l, "synthtree", 32, seed, pick(tier, 40, 3000/div))
 		l = mkCases(l, "playout", 32, seed, pick(tier, 25, 2500/div))
 		l = mkCases(l, "tactic", 16, seed, pick(tier, 100, 5000/div))
@@ -50,7 +55,7 @@ func init() {
 			return map[string]int64{
 				"positions": 20000, "in_check": 500, "double_check": 5, "pinned_piece_positions": 100,
 				"ep_legal": 20, "ep_illegal_by_check": 1, "castle_legal": 50, "castle_blocked_by_attack": 10,
-				"promotions": 100, "capture_promotions": 20, "stalemate": 1, "checkmate": 1,
+				"promotions": 100, "capture_promotions": 20, "stalemate": 1, "checkmate": 1, "perft_checks": 18,
 			}
 		},
 		Run: func(c *fw.Ctx, cs fw.Case) { runWalk(c, cs, false) },
@@ -77,6 +82,28 @@ func init() {
 func runWalk(c *fw.Ctx, cs fw.Case, succ bool) {
 	r := cs.Rand()
 	switch cs.Kind {
+	case "perft":
+		// published node counts: an anchor outside both implementations
+		e := ref.PerftTable[cs.N]
+		p := ref.MustFEN(e.FEN)
+		pos, err := adapt.Position(p)
+		if err != nil {
+			c.Violate("newposition", "NewPosition failed for %s: %v", e.FEN, err)
+			return
+		}
+		maxd := 3
+		if !c.Quick() {
+			maxd = len(e.Counts)
+		}
+		for d := 1; d <= maxd && d <= len(e.Counts); d++ {
+			n := perftSUT(pos, adapt.BColor(p.White), d)
+			c.Eval(1)
+			c.Count("perft_nodes", int(n))
+			c.Count("perft_checks", 1)
+			if n != e.Counts[d-1] {
+				c.Violate("movegen:perft", "perft(%d) of %s (%s) = %d, published value %d", d, e.Name, e.FEN, n, e.Counts[d-1])
+			}
+		}
 	case "tree":
 		p := ref.MustFEN(gen.StartFENs[cs.N])
 		depth := 2
@@ -173,6 +200,20 @@ func walkPlayout(c *fw.Ctx, r *rand.Rand, start ref.Pos, plies int, bias gen.Bia
 		pos = next
 	}
 	checkNode(c, p, pos, succ)
+}
+
+// perftSUT counts leaf nodes with the system under test's own move generator.
+func perftSUT(pos *board.Position, turn board.Color, d int) uint64 {
+	if d == 0 {
+		return 1
+	}
+	var n uint64
+	for _, m := range pos.PseudoLegalMoves(turn) {
+		if next, ok := pos.Move(m); ok {
+			n += perftSUT(next, turn.Opponent(), d-1)
+		}
+	}
+	return n
 }
 
 // walkTree walks the full legal tree below (p,pos) to the given depth in lock-step.
